@@ -1,9 +1,13 @@
-(* C09, part "sweep" - services of C01 that are not modelled (vnc: frame pusher and ticker
-   goroutines; ssh-simulator: ssh.DiscardRequests and per-channel goroutines; ipp): no model,
-   the property is judged on the observation alone.  One case = one service instance, one
-   client behaviour repeated N times sequentially; per connection: how Handle ended and the
-   honeytrap goroutines / listening sockets / descriptors above the baseline after it. *)
-From HT Require Import Common.Bytes.
+(* C09, part "sweep" - services and code paths of C01 that have no full model:
+   vnc (frame pusher and ticker goroutines), ssh-simulator (ssh.DiscardRequests, per-channel
+   goroutines, channel-request payload decoding), ipp, and the ftp data channel in every mode
+   (passive / active x plain / TLS x peer absent / knocks / holds still x LIST / RETR / STOR).
+   The property is judged on the observation alone; the one piece of logic that is modelled -
+   the string-list loop over env / exec payloads - is compared with the model.
+   One case = one service instance, one client behaviour repeated N times sequentially; per
+   connection: how Handle ended and the honeytrap goroutines / listening sockets / descriptors
+   above the baseline after it. *)
+From HT Require Import Common.Bytes C09.Model.
 Open Scope Z_scope.
 
 (* w_out: 0 returned, 1 panicked (recovered), 2 still running and burning CPU, 3 still running and idle *)
@@ -11,11 +15,14 @@ Record wobs := mkW { w_out : N; w_gor : Z; w_lis : Z; w_fds : Z }.
 
 Record case := mkSweep {
   w_id : N;
-  w_svc : N;            (* 1 vnc, 2 ssh-simulator, 3 ipp *)
+  w_svc : N;            (* 1 vnc, 2 ssh-simulator, 3 ipp, 4 ftp data channel without certificate, 5 with *)
   w_scenario : N;       (* which client behaviour (see the harness) *)
   w_silent : bool;      (* the client goes silent instead of closing *)
   w_n : N;
-  w_obs : list wobs
+  w_obs : list wobs;
+  w_req : N;                     (* ssh channel request type: 0 none, 1 env, 2 exec, 3 another type *)
+  w_payloads : list bytes;       (* request payloads sent, one request each *)
+  w_lists : list (list bytes)    (* the string lists the simulator reported for them, in order *)
 }.
 
 Definition SIG_NO_RETURN := 7%N.
@@ -27,19 +34,39 @@ Definition SIG_DESCRIPTORS := 10%N.
    has given up, and waits for ever on the full 128-slot queue (scenario 5: SetPixelFormat
    with true-colour = 0, then 140 update requests in one write) *)
 Definition SIG_VNC_QUEUE := 15%N.
+(* ftp: an active-mode data connection (PORT) carries no deadline: STOR from a client that
+   accepts the connection and then neither sends nor closes waits for ever (scenario 17) *)
+Definition SIG_FTP_ACTIVE_NO_DEADLINE := 16%N.
 
-(* there is no model to disagree with; a history that is not as long as requested although
-   every handler came back would be a harness problem *)
+Definition all_back (k : case) : bool := forallb (fun o => (w_out o <? 2)%N) (w_obs k).
+
+Fixpoint lists_eqb (a b : list (list bytes)) : bool :=
+  match a, b with
+  | [], [] => true
+  | x :: a', y :: b' => (if list_eq_dec (list_eq_dec N.eq_dec) x y then true else false) && lists_eqb a' b'
+  | _, _ => false
+  end.
+
+Definition model_lists (k : case) : list (list bytes) :=
+  map (fun p => match ssh_decode p with Some l => l | None => [] end) (w_payloads k).
+
+(* the model's part: env / exec payloads must have been decoded into exactly the lists the
+   model computes; and a history that is not as long as requested although every handler came
+   back would be a harness problem *)
 Definition mismatches (cs : list case) : list N :=
   map w_id (filter (fun k =>
-    forallb (fun o => (w_out o <? 2)%N) (w_obs k) && negb (length (w_obs k) =? N.to_nat (w_n k))%nat) cs).
+    all_back k &&
+    (negb (length (w_obs k) =? N.to_nat (w_n k))%nat ||
+     (((w_req k =? 1) || (w_req k =? 2))%N && negb (lists_eqb (w_lists k) (model_lists k))))) cs).
 
 Definition case_sigs (k : case) : list N :=
   match last (map Some (w_obs k)) None with
   | None => [SIG_NO_RETURN]
   | Some o =>
       if (2 <=? w_out o)%N then
-        [if (w_out o =? 3)%N && (w_svc k =? 1)%N && (w_scenario k =? 5)%N then SIG_VNC_QUEUE else SIG_NO_RETURN]
+        [if (w_out o =? 3)%N && (w_svc k =? 1)%N && (w_scenario k =? 5)%N then SIG_VNC_QUEUE
+         else if (w_out o =? 3)%N && ((w_svc k =? 4) || (w_svc k =? 5))%N && (w_scenario k =? 17)%N then SIG_FTP_ACTIVE_NO_DEADLINE
+         else SIG_NO_RETURN]
       else (if w_gor o =? 0 then [] else [SIG_GOROUTINES]) ++
            (if w_lis o =? 0 then [] else [SIG_LISTENERS]) ++
            (if w_fds o - w_lis o =? 0 then [] else [SIG_DESCRIPTORS])
@@ -49,4 +76,5 @@ Definition violations (cs : list case) : list (N * N) :=
   flat_map (fun k => map (fun s => (w_id k, s)) (case_sigs k)) cs.
 
 Definition tags (cs : list case) : list (N * N) :=
-  map (fun k => (w_id k, (w_svc k + (if w_silent k then 8 else 0) + (if (1 <? w_n k) then 16 else 0))%N)) cs.
+  map (fun k => (w_id k, (w_svc k + (if w_silent k then 8 else 0) + (if (1 <? w_n k) then 16 else 0) +
+                          (if (0 <? w_req k) then 32 else 0))%N)) cs.
